@@ -142,6 +142,12 @@ var (
 	dGBA  = u.F("dGBA", "{B*g}", "A")                  // decorator of A that needs the group g of B
 	dGBAe = u.F("dGBAe", "{B*g}", "A,error")           // the same; may fail
 	fBgAe = u.F("fBgAe", "A", "B,error", u.Group("g")) // group member B needing A; may fail
+	// a group decorator that also needs B, a decorator of B that needs C, and a
+	// constructor of C that consumes the group: placed over a chain of scopes
+	// (C exported from below) the group is demanded again while its decorator
+	// is being built
+	dGwB = u.F("dGwB", "{A*g},B", "{[A]!1+g}")
+	dBwC = u.F("dBwC", "B,C", "B")
 )
 
 // ring pieces: constructor of X consuming Y.
